@@ -59,7 +59,8 @@ static void gen(const char *prop, RunSpec &spec)
 	uint32_t sk = (uint32_t)r.below(100);
 	if (sk < 30) S = (uint32_t)(r.range(1, 4) * 4096 - r.range(0, 20));
 	else if (sk < 60) S = (uint32_t)r.range(1, 300);
-	else S = (uint32_t)r.range(1, 20000);
+	else if (sk < 99) S = (uint32_t)r.range(1, 20000);
+	else S = (uint32_t)(r.range(16, 130) * 4096 - r.range(0, 40));      // 64 KiB .. 512 KiB, around page multiples (one run in a hundred)
 	if (c11 && S < 8) S += 8;
 	p.set("size", S);
 	p.set("sem", r.chance(1, 4));
